@@ -168,7 +168,19 @@ func c04Expected(kind, doc string, xp c04XPath) ([]string, string) {
 	return out, ""
 }
 
+// c04Check: the caller releases every delivered node before the next Read; for small documents the run
+// is repeated with a caller that never calls Release (the next Read has to clean up by itself).
 func c04Check(cs c04Case, xp c04XPath) (sig, detail string) {
+	sig, detail = c04Check1(cs, xp, true)
+	if sig == "" && len(cs.Doc) <= 36 {
+		if sig, detail = c04Check1(cs, xp, false); sig != "" && !strings.HasPrefix(sig, "harness:") {
+			sig, detail = sig+":caller-never-releases", "(the caller never calls Release)\n"+detail
+		}
+	}
+	return sig, detail
+}
+
+func c04Check1(cs c04Case, xp c04XPath, release bool) (sig, detail string) {
 	want, herr := c04Expected(cs.Kind, cs.Doc, xp)
 	if herr != "" {
 		return "harness:expected", herr
@@ -190,7 +202,9 @@ func c04Check(cs c04Case, xp c04XPath) (sig, detail string) {
 			break
 		}
 		got = append(got, serNode(n))
-		sr.Release(n)
+		if release {
+			sr.Release(n)
+		}
 	}
 	same := len(got) == len(want) && end == "eof"
 	if same {
@@ -407,7 +421,7 @@ func init() {
 			"the whole-document tree is loaded by the same reader with target '.', so node construction itself is C08's subject, not C04's",
 			"xpaths are of the property's class: predicates only on the final step and only about the candidate itself",
 		},
-		BudgetQuick: 100, BudgetThorough: 1700,
+		BudgetQuick: 200, BudgetThorough: 1700,
 		Run: func(c *core.Ctx) {
 			full := c04XMLAlpha{names: []string{"a", "b"}, attrs: []string{"", "1"}, lead: []string{"", "1", "2"}, trail: []string{"", " "}}
 			red := c04XMLAlpha{names: []string{"a", "b"}, attrs: []string{"", "1"}, lead: []string{"", "1"}, trail: []string{""}}
